@@ -32,6 +32,11 @@ SHARING = {
 LIBC = set(c08.MT_SAFE) | {"strcpy", "strncpy", "memchr"}
 
 
+def tnorm(t):
+    """llvm-link renames colliding struct types (%struct.X.5): irrelevant for code identity"""
+    return re.sub(r"(%(?:struct|union)\.[A-Za-z0-9_]+?)\.\d+\b", r"\1", t)
+
+
 def canon_hashes(m):
     """canonical structural hash per defined function (independent of llvm-link's renaming of private symbols)"""
     memo = {}
@@ -66,7 +71,7 @@ def canon_hashes(m):
         F = m.functions.get(name)
         if F is None:
             return "X" + name
-        if F.linkage == "external":
+        if F.linkage == "external" or name in VARIANT_FUNCS:
             return "F" + name          # identity by name; its own body is compared separately
         return "L" + fhash(name, stack)
 
@@ -77,10 +82,10 @@ def canon_hashes(m):
             return "REC"
         F = m.functions[name]
         h = hashlib.sha1()
-        h.update(("%s|%s" % (F.d["fty"], len(F.order))).encode())
+        h.update(("%s|%s" % (tnorm(F.d["fty"]), len(F.order))).encode())
         for b in F.order:
             for I in F.blocks[b]:
-                parts = [I.op, I.ty or "", I.d.get("pred", ""), str(I.d.get("size", "")), str(I.d.get("srcty", "")), str(I.d.get("cpart", "")),
+                parts = [I.op, tnorm(I.ty or ""), I.d.get("pred", ""), str(I.d.get("size", "")), tnorm(str(I.d.get("srcty", ""))), str(I.d.get("cpart", "")),
                          str(I.d.get("succs", "")), str(I.d.get("cases", ""))]
                 if I.is_call:
                     parts.append(fkey(I.callee, stack + (name,)) if I.callee else "ind:" + (okey(F, I.d["target"], stack + (name,)) if I.d.get("target") else "asm:" + str(I.d.get("asm"))))
@@ -93,6 +98,10 @@ def canon_hashes(m):
         memo[name] = h.hexdigest()[:16]
         return memo[name]
     return {n: fhash(n) for n in m.functions}
+
+
+def base(name):
+    return re.sub(r"\.\d+$", "", name)
 
 
 def analyse_selection(args):
@@ -202,6 +211,9 @@ def run(chk, tier):
     ref = analyse_selection((names, names))
     if "hashes" not in ref:
         raise AnalysisBroken("reference (all hashes) build failed: %s" % (ref.get("compile_errors") or ref.get("error")))
+    ref_by_base = {}
+    for fn, h in ref["hashes"].items():
+        ref_by_base.setdefault(base(fn), set()).add(h)
     ref_rows = {r["crypt"]: r for r in ref["rows"] if r["prefix"] is not None}
     ref_order = [r["crypt"] for r in ref["rows"] if r["prefix"] is not None]
     with ProcessPoolExecutor(6) as ex:
@@ -240,9 +252,10 @@ def run(chk, tier):
         for fn in sorted(reach):
             if fn in VARIANT_FUNCS or fn not in res["hashes"]:
                 continue
-            if fn not in ref["hashes"]:
+            cands = ref_by_base.get(base(fn))
+            if not cands:
                 diff.append((fn, "not in full build"))
-            elif res["hashes"][fn] != ref["hashes"][fn]:
+            elif res["hashes"][fn] not in cands:
                 diff.append((fn, "differs"))
         if diff:
             for fn, why in diff[:6]:
@@ -268,7 +281,7 @@ def run(chk, tier):
             need = []
             if "yescrypt" not in sel and ("scrypt" in sel):
                 need.append("$y$")
-            if "scrypt" not in sel and ("yescrypt" in sel or "gost_yescrypt" in sel):
+            if "scrypt" not in sel and "yescrypt" in sel:
                 need.append("$7$")
             for pfx in need:
                 if not g.get("dominating_refusals", {}).get(pfx):
